@@ -26,8 +26,7 @@ Definition strs_eqb := list_eqb String.eqb.
 
 Definition model_agrees (c : case) : bool :=
   match c with
-  | CKeys _ _ _ true => true      (* a re-attached config: its parent link is outside the tree model *)
-  | CKeys t fl nodes false =>
+  | CKeys t fl nodes _ =>          (* also for a config attached a second time: it is attached as a copy (fix F12b) *)
     match flattened_keys "." t with
     | Ok m => strs_eqb m fl
     | OutOfModel => true
@@ -58,13 +57,7 @@ Definition prop_holds (c : case) : bool :=
     else true
   end.
 
-(* known-finding signature 12: a config attached a second time with SetChild (it keeps
-   its first path and parent and is listed twice) *)
-Definition signature (c : case) : N :=
-  match c with
-  | CKeys _ _ _ true => 12%N
-  | _ => 0%N
-  end.
+Definition signature (c : case) : N := 0%N.
 
 Definition verdict (c : case) : N :=
   ((if model_agrees c then 0 else 1) + (if prop_holds c then 0 else 2))%N.
